@@ -103,6 +103,9 @@ def model_term(inp):
     if inp["kind"] == "seq":
         ops = "[" + "; ".join(_coq_op(o) for o in inp["ops"]) + "]"
         return f"run_seq {_coq_store(inp)} {b(inp['warm'])} {ops}"
+    if inp["kind"] == "push":
+        ops = "[" + "; ".join(_coq_op(o) for o in inp["between"]) + "]"
+        return f"run_push {_coq_store(_push_store(inp))} {b(inp['warm'])} {inp['n']}%N {inp['new']}%N {ops}"
     sched = "[" + "; ".join(f"{p}%nat" for p in inp["sched"]) + "]"
     return (f"run_conc {_coq_store(inp)} {b(inp['warm'][0])} {_coq_op(inp['ops'][0])} "
             f"{b(inp['warm'][1])} {_coq_op(inp['ops'][1])} {sched}")
@@ -262,9 +265,126 @@ def _fresh():
     return os.path.join(_state["dir"], "g%d" % _state["n"])
 
 
+# ---- bzr -> local git push (InterToLocalGitRepository.fetch_refs) with a second updater in between ----
+# SHA indices in push cases: 0 ZERO_SHA, 1 = g1 (what refs/heads/a holds before), 2 = g2 (what the push writes),
+# 3 = gx (the other updater's commit, also the value of refs/heads/b)
+
+def _push_store(inp):
+    """the target's refs when the push takes its snapshot"""
+    lo = [[0, ["sym", 1]], [2, ["sha", 3]]]
+    pa = []
+    if inp["init"] == "loose":
+        lo.append([1, ["sha", 1]])
+    elif inp["init"] == "packed":
+        pa.append([1, 1])
+    elif inp["init"] == "loose+packed":
+        lo.append([1, ["sha", 1]])
+        pa.append([1, 3])
+    return {"loose": lo, "packed": pa}
+
+
+def _do_push(src_repo, gitdir, refname, revid, in_between=None):
+    from breezy.controldir import ControlDir
+    from breezy.repository import InterRepository
+    git_repo = ControlDir.open(gitdir).open_repository()
+    with src_repo.lock_read():
+        inter = InterRepository.get(src_repo, git_repo)
+
+        def decide(old_refs):
+            if in_between is not None:
+                in_between(old_refs)
+            return {refname: (None, revid)}
+
+        revidmap, _, _ = inter.fetch_refs(decide, lossy=True)
+        return revidmap[revid][0] if revid in revidmap else None
+
+
+def _new_target(path):
+    from breezy.controldir import ControlDir, format_registry
+    ControlDir.create(path, format=format_registry.make_controldir("git-bare"))
+    env = _state["push"]
+    _do_push(env["ours"], path, NAMES[1], env["r1"])
+    _do_push(env["theirs"], path, NAMES[2], env["rx"])
+
+
+def _push_env():
+    if "push" in _state:
+        return _state["push"]
+    from breezy.controldir import ControlDir, format_registry
+    d = os.path.join(_state["dir"], "pushsrc")
+    os.makedirs(d, exist_ok=True)
+
+    def tree(sub, texts):
+        t = ControlDir.create_standalone_workingtree(os.path.join(d, sub), format=format_registry.make_controldir("2a"))
+        revs = []
+        for i, txt in enumerate(texts):
+            with open(os.path.join(d, sub, "f"), "w") as f:
+                f.write(txt)
+            if i == 0:
+                t.add(["f"])
+            revs.append(t.commit("c%d" % i))
+        return t.branch.repository, revs
+
+    ours, (r1, r2) = tree("ours", ["one\n", "two\n"])
+    theirs, (rx,) = tree("theirs", ["other\n"])
+    env = _state["push"] = {"ours": ours, "theirs": theirs, "r1": r1, "r2": r2, "rx": rx}
+    probe = os.path.join(d, "probe.git")
+    _new_target(probe)
+    with open(os.path.join(probe, "refs/heads/a"), "rb") as f:
+        g1 = f.read().strip()
+    g2 = _do_push(ours, probe, NAMES[1], r2)
+    with open(os.path.join(probe, "refs/heads/b"), "rb") as f:
+        gx = f.read().strip()
+    shutil.rmtree(probe, ignore_errors=True)
+    env["shas"] = [SHAS[0], g1, g2, gx] + [b"%040d" % (9000 + i) for i in range(6)]
+    return env
+
+
+def _impl_push(inp):
+    global SHAS
+    from breezy.git.transportgit import TransportRefsContainer
+    from breezy.transport import get_transport
+    env = _push_env()
+    base = _fresh()
+    saved = SHAS
+    try:
+        SHAS = env["shas"]
+        _new_target(base)
+        st = _push_store(inp)
+        with open(os.path.join(base, "HEAD"), "wb") as f:
+            f.write(b"ref: refs/heads/a\n")
+        if not any(n == 1 for n, _ in st["loose"]):
+            os.unlink(os.path.join(base, "refs/heads/a"))
+        if st["packed"]:
+            with open(os.path.join(base, "packed-refs"), "wb") as f:
+                f.write(b"# pack-refs with: peeled fully-peeled sorted \n")
+                for n, k in st["packed"]:
+                    f.write(SHAS[k] + b" " + NAMES[n] + b"\n")
+        if _disk(base) != [_loose0(st), _packed0(st)]:
+            raise RuntimeError("push target was not set up as intended: %r" % (_disk(base),))
+        bres = []
+
+        def other(old_refs):
+            r = TransportRefsContainer(get_transport(base))
+            if inp["warm"]:
+                r.get_packed_refs()
+            for o in inp["between"]:
+                bres.append(_apply(r, o))
+
+        got = _do_push(env["ours"], base, NAMES[inp["n"]], env["r2"], other)
+        if got != SHAS[inp["new"]]:
+            raise RuntimeError("unexpected pushed sha")
+        return {"t": [bres, _disk(base)]}
+    finally:
+        SHAS = saved
+        shutil.rmtree(base, ignore_errors=True)
+
+
 def impl(inp):
     from breezy.git.transportgit import TransportRefsContainer
     from breezy.transport import get_transport
+    if inp["kind"] == "push":
+        return _impl_push(inp)
     base = _fresh()
     try:
         _mkgit(base, inp)
@@ -409,12 +529,40 @@ def _conc_spec_outcomes(inp):
     return [(ra, rb, v2), (ra2, rb2, w2)]
 
 
+def _push_op(view0, inp):
+    """what fetch_refs must do for the pushed name, given the refs it read at the start of the push"""
+    old = view0[inp["n"]]
+    if old is None:
+        return {"op": "add", "n": inp["n"], "new": inp["new"]}
+    return {"op": "set", "n": inp["n"], "old": ["sha", old] if not isinstance(old, list) else ["sym", old[1]],
+            "new": inp["new"]}
+
+
+def _push_failure(inp, obs):
+    """the push's ref update must be conditional on the value the push read at its start"""
+    view0 = _init_view(_push_store(inp))
+    view = view0
+    bres, disk = obs["t"]
+    for o, res in zip(inp["between"], bres):
+        sres, view = _spec(o, view)
+        if sres != res:
+            return f"other updater's {o} returned {res!r}, atomic compare-and-swap gives {sres!r}"
+    _, want = _spec(_push_op(view0, inp), view)
+    got = _view(disk)
+    if got != want:
+        return (f"push of {inp['new']} to ref {inp['n']} computed against refs {view0}; the other updater ran {inp['between']} "
+                f"in between (refs then {view}); final refs {got}, a conditional update gives {want}")
+    return None
+
+
 def oracle(inp, obs):
     if isinstance(obs, Err):
         return "driver error " + str(obs)
     if inp["kind"] == "seq":
         f = _seq_failures(inp, obs)
         return f[0][1] if f else None
+    if inp["kind"] == "push":
+        return _push_failure(inp, obs)
     ra, rb, disk = obs["t"][0], obs["t"][1], obs["t"][2]
     if isinstance(ra, Tag) or isinstance(rb, Tag):
         return None          # incomplete schedule: nothing to judge
@@ -438,6 +586,11 @@ def _windows_overlap(trace):
     return not (a1 < b0 or b1 < a0)
 
 
+def _loose0(inp):
+    lo = dict((n, _pyval(v)) for n, v in inp["loose"])
+    return [lo.get(i) for i in range(len(ALLNAMES))]
+
+
 def _packed0(inp):
     pk = dict(inp["packed"])
     return [pk.get(i) for i in range(len(ALLNAMES))]
@@ -455,6 +608,15 @@ def finding_matches(fid, inp, obs, why):
     if isinstance(obs, Err):
         return False
     # C37-remove-packed-cold-cache was repaired by 80b730a: nothing is excused for it any more
+    if inp["kind"] == "push":
+        # the pushing container loaded packed-refs for its snapshot; the other updater then REMOVED the packed
+        # ref the push compares with
+        if fid != "C37-stale-packed-cache":
+            return False
+        st = _push_store(inp)
+        tgt = _target(st, {"op": "set", "n": inp["n"]})
+        return any(o["op"] == "remove" and r is True and o["n"] == tgt and _packed0(st)[tgt] is not None
+                   for o, r in zip(inp["between"], obs["t"][0]))
     if inp["kind"] != "conc":
         return False
     a, b = inp["ops"]
@@ -506,7 +668,7 @@ COLD2 = {"kind": "seq", "loose": [[X, ["sha", 1]]], "packed": [[X, 2]], "warm": 
 
 
 def corpus():
-    return [LOST, STALE, RESURRECT, COLD, COLD2]
+    return [LOST, STALE, RESURRECT, COLD, COLD2, PUSH_LOST, PUSH_LOST_PACKED, PUSH_ADD]
 
 
 def _table():
@@ -605,7 +767,36 @@ def _conc_table():
                         yield {"kind": "conc", "loose": lo, "packed": pa, "warm": warm, "ops": [a, b], "sched": s + PAD}
 
 
+def _push_table():
+    A, B = 1, 2
+    betweens = [
+        [],
+        [{"op": "set", "n": A, "old": ["sha", 1], "new": 3}],          # their CAS g1 -> gx succeeds
+        [{"op": "set", "n": A, "old": None, "new": 3}],
+        [{"op": "set", "n": 0, "old": ["sha", 1], "new": 3}],          # through HEAD -> a
+        [{"op": "remove", "n": A, "old": ["sha", 1]}],
+        [{"op": "remove", "n": A, "old": None}, {"op": "add", "n": A, "new": 3}],
+        [{"op": "add", "n": A, "new": 3}],
+        [{"op": "set", "n": B, "old": ["sha", 3], "new": 1}],          # unrelated ref
+        [{"op": "set", "n": A, "old": ["sha", 1], "new": 3}, {"op": "set", "n": A, "old": ["sha", 3], "new": 1}],  # ABA
+        [{"op": "set", "n": A, "old": ["sha", 0], "new": 3}],
+    ]
+    for init in ("loose", "packed", "absent", "loose+packed"):
+        for bt in betweens:
+            for warm in (False, True):
+                yield {"kind": "push", "init": init, "n": A, "new": 2, "between": bt, "warm": warm}
+
+
+PUSH_LOST = {"kind": "push", "init": "loose", "n": 1, "new": 2, "warm": False,
+             "between": [{"op": "set", "n": 1, "old": ["sha", 1], "new": 3}]}
+PUSH_LOST_PACKED = dict(PUSH_LOST, init="packed")
+PUSH_ADD = {"kind": "push", "init": "absent", "n": 1, "new": 2, "warm": False,
+            "between": [{"op": "add", "n": 1, "new": 3}]}
+
+
 def cases(rng, tier):
+    pt = list(_push_table())
+    yield from (rng.sample(pt, 30) if tier == "quick" else pt)
     yield from _table()
     for _ in range(300 if tier == "quick" else 6000):
         lo, pa = _rand_store(rng)
@@ -630,7 +821,7 @@ def cases(rng, tier):
 def nontrivial(inp, obs):
     if isinstance(obs, Err):
         return False
-    if inp["loose"] or inp["packed"]:
+    if inp["kind"] == "push" or inp["loose"] or inp["packed"]:
         return True
     t = obs["t"]
     return any(s[0] is True for s in t) if inp["kind"] == "seq" else (t[0] is True or t[1] is True)
@@ -640,7 +831,9 @@ def distribution(inputs, observations):
     d = {"seq": 0, "conc": 0, "seq_ops": 0, "results": {}, "conc_overlapping": 0, "conc_not_linearizable": 0,
          "seq_spec_failures": 0, "dulwich_differences": 0, "dulwich_difference_samples": []}
     for i, o in zip(inputs, observations):
-        d[i["kind"]] += 1
+        d[i["kind"]] = d.get(i["kind"], 0) + 1
+        if i["kind"] == "push":
+            continue
         if isinstance(o, Err):
             continue
         if i["kind"] == "seq":
